@@ -13,9 +13,10 @@ def slotsOfAnnotation (kind : String) (raw : List Char) : List Int :=
     | none => []
   else []
 
-/-- monitor for C01 on an observation of the helpers -/
-def monitorOrdinals (r : Int) (obs : String) : String :=
-  let S := parseIntList (fieldD obs "slots")
+/-- monitor for C01 on an observation of the helpers. The slot set is the one the annotation *denotes* (a JSON array of
+    int32 values, anything else denotes no slots) — not the one the implementation says it parsed. -/
+def monitorOrdinals (r : Int) (S : List Int) (obs : String) : String :=
+  let implSlots := parseIntList (fieldD obs "slots")
   let D := desired r S
   let ords := parseIntList (fieldD obs "ords")
   let ords2 := parseIntList (fieldD obs "ords2")
@@ -26,6 +27,9 @@ def monitorOrdinals (r : Int) (obs : String) : String :=
   let specMax : Int := D.getLast?.getD (-1)
   let specMin : Int := D.head?.getD 2147483647
   verdict [
+    ("C01.slots", implSlots == S),
+    ("C01.pure", fieldD obs "mut" == "0"),
+    ("C01.next", parseIntList (fieldD obs "next") == desired (r + 3) S),
     ("C01.ords", ords == D),
     ("C01.ords2", ords2 == D),
     ("C01.max", mx == specMax),
@@ -40,11 +44,11 @@ def stepOrdinals (cas obs : String) : String :=
     let S := slotsOfAnnotation kind (hexDecode hex.toList)
     let p := maxReplicaAndSlots r S
     let ords := podOrdinals r S
-    let model := s!"slots={showIntList S} bound={p.1} eff={showIntList p.2} ords={showIntList ords} ords2={showIntList ords} max={maxOrd r S} min={minOrd r S}"
+    let model := s!"slots={showIntList S} bound={p.1} eff={showIntList p.2} ords={showIntList ords} ords2={showIntList ords} max={maxOrd r S} min={minOrd r S} next={showIntList (podOrdinals (r + 3) S)} mut=0"
     let tag := (if kind != "raw" then "noann" else if (JsonInts.parse (hexDecode hex.toList)).isNone then "malformed" else
       if S.isEmpty then "empty" else if S.any (· < 0) then "negative" else if p.2.isEmpty then "allabove" else
       if p.2.length < S.length then "mixed" else "allinside")
-    s!"{model}\t{monitorOrdinals r obs}\t{tag}"
+    s!"{model}\t{monitorOrdinals r S obs}\t{tag}"
   | _ => "bad-case\tok\tbad"
 
 end Asts.Driver
